@@ -323,7 +323,7 @@ void run_C14(void) {
   unsigned ctr = 0;
   for (size_t mi = 0; mi < ARRAY_LEN(MQ); mi++) {
     const uint64_t m = MQ[mi];
-    const unsigned reps = th ? (m <= 1024 ? 20 : 3) : (m <= 64 ? 3 : 1);
+    const unsigned reps = th ? (m <= 1024 ? 120 : 12) : (m <= 64 ? 8 : 2);
     for (unsigned rep = 0; rep < reps; rep++) {
       for (int v = 0; v < 4; v++) {
         if (v == 3 && m < 2) continue;  // the vector kernel handles 4 values per step (n = 2m >= 4)
